@@ -85,6 +85,51 @@ def certOp (j : Json) : R Json := do
   | none => throw "cert-rejected"
   | some w' => return Json.mkObj [("final", toJson w'), ("shorter", toJson (decide (w'.length < w.size)))]
 
+def optNatJ (o : Option Nat) : Json := optNat o
+
+/-- `FSA.follow_word` on a transition table (`Table.follow`, start state 0) for a list of words, and — for a list
+of sequences of 2-letter labels — the block word (`unblock`), the run of the original table on the pairs
+(`follow2`) and the run of the even automaton (`EvenG.follow` on `evenAutomaton`): the three objects the
+theorems `even_step` / `even_variant` relate -/
+def followOp (j : Json) : R Json := do
+  let rank ← natf j "rank"
+  let A ← tablef j "table"
+  let words ← (← arr (← field j "words")).mapM fun w => do (← arr w).mapM nat
+  let pairs ← (← arr (← field j "pairs")).mapM fun ps => do
+    (← arr ps).mapM fun p => do
+      let a ← arr p
+      if a.size ≠ 2 then throw "bad pair"
+      return ((← nat a[0]!), (← nat a[1]!))
+  let fw : Json := .arr (words.map fun w => optNatJ (Table.follow A 0 w.toList))
+  let ev ← if pairs.isEmpty then pure Json.null else
+    match evenAutomaton A rank (← natf j "fuel") with
+    | none => throw "fuel"
+    | some g =>
+      let E : EvenG := g
+      pure (.arr (pairs.map fun ps => Json.mkObj
+        [("unblock", toJson (unblock ps.toList)), ("follow2", optNatJ (follow2 A 0 ps.toList)),
+         ("even", optNatJ (EvenG.follow E 0 ps.toList))]))
+  return Json.mkObj [("follow", fw), ("even", ev)]
+
+/-- the rank-2 pipeline of the end-to-end theorems (`coxeterAutomaton_rank2_finite` / `_inf`), with the very
+constants they are stated for: `form2 c`, threshold `eps0` or `eps6`, fuels 8/8/16; returns
+`summary (findSmallRoots …)` and the table of `coxeterAutomaton` -/
+def rank2Op (j : Json) : R Json := do
+  let c ← qf j "c"
+  let lex ← boolf j "lex"
+  let ε ← match (← strf j "eps") with
+    | "eps0" => pure eps0
+    | "eps6" => pure eps6
+    | _ => throw "eps must be eps0 or eps6"
+  let sj : Json := match summary (findSmallRoots ε (form2 c) 8 8) with
+    | none => Json.null
+    | some L => .arr (L.map fun (v, nb) => Json.mkObj
+        [("v", ofQArr v.toArray), ("nb", .arr (nb.map optNat).toArray)]).toArray
+  match coxeterAutomaton ε (form2 c) 8 8 16 lex with
+  | .error e => throw e
+  | .ok A => return Json.mkObj [("eps", ofQ ε), ("roots", sj), ("table", ofTable A)]
+
 def ops : List (String × Handler) :=
-  [("c07.automaton", automatonOp), ("c07.even", evenOp), ("c07.cert", certOp)]
+  [("c07.automaton", automatonOp), ("c07.even", evenOp), ("c07.cert", certOp), ("c07.follow", followOp),
+   ("c07.rank2", rank2Op)]
 end GT.Driver.C07
